@@ -272,6 +272,27 @@ pub fn gen_pairs(seed: u64, tier: &str, salt: u64) -> Vec<Pair> {
         let class = format!("bs{}:{}:basis{}", if valid.contains(&bs) { "valid" } else { "odd" }, sclass, bkind);
         out.push(Pair { id, bs, basis, src, class });
     }
+    // consecutive TWIN pairs (the sync engine object is shared by all pairs of a run, see run_pair): the second basis is the
+    // first one with one middle block rewritten in place - same length, same block size, same first and last block - and
+    // the second source holds the OLD content of that block: an engine that carries anything over from the previous call
+    // (a cached table, a remembered window) answers with copies that name the wrong bytes
+    let ntw = if thorough { 60 } else { 8 };
+    for t in 0..ntw {
+        let bs = [512usize, 2048, 1024, 7][t % 4];
+        let nb = 4 + (t % 3);
+        let basis1: Vec<u8> = (0..nb * bs).map(|_| r.byte()).collect();
+        let mid = 1 + t % (nb - 2);
+        let mut basis2 = basis1.clone();
+        for x in &mut basis2[mid * bs..(mid + 1) * bs] { *x = r.byte(); }
+        let mut src1 = basis1.clone();
+        src1.extend((0..bs / 2).map(|_| r.byte()));
+        let mut src2 = basis2[..bs].to_vec();
+        src2.extend(&basis1[mid * bs..(mid + 1) * bs]);          // the old middle block: not in basis2
+        src2.extend(&basis2[mid * bs..]);
+        let id = out.len();
+        out.push(Pair { id, bs, basis: basis1, src: src1, class: format!("bs{}:twin-first:basisR", if valid.contains(&bs) { "valid" } else { "odd" }) });
+        out.push(Pair { id: id + 1, bs, basis: basis2, src: src2, class: format!("bs{}:twin-second:basisR", if valid.contains(&bs) { "valid" } else { "odd" }) });
+    }
     out
 }
 
@@ -301,13 +322,17 @@ pub fn run_pair(p: &Pair, seed: u64) -> Engines {
     let basis = p.basis.clone();
     let src = p.src.clone();
     let bs = p.bs;
+    // ONE engine object serves every pair of the run (as a long-lived caller would use it): whatever it remembers from
+    // one call must not change the answer to the next
+    thread_local! { static ENGINE: CopiaSync = CopiaSync::new(); }
     let r = catch(move || {
         let sig = Signature::generate(&mut Cursor::new(&basis), bs).unwrap();
-        let sync = CopiaSync::new();
-        let delta = sync.delta(Cursor::new(&src), &sig).unwrap();
-        let mut out = Vec::new();
-        let pr = sync.patch(Cursor::new(&basis), &delta, &mut out);
-        (sig, delta, out, pr.is_ok())
+        ENGINE.with(|sync| {
+            let delta = sync.delta(Cursor::new(&src), &sig).unwrap();
+            let mut out = Vec::new();
+            let pr = sync.patch(Cursor::new(&basis), &delta, &mut out);
+            (sig, delta, out, pr.is_ok())
+        })
     });
     let (sig, delta, out, pok) = match r {
         Ok(x) => x,
